@@ -1,4 +1,5 @@
 CONSTANTS
+  Variant = "coded"
   Rels = {}
   Relas = {}
   Words = {}
